@@ -180,6 +180,48 @@ def _default_flag():
     raise TranslateError(f"{rel}: BaseChannelArgs.channel_lock not found")
 
 
+DECO = "scrapli/decorators.py"
+
+
+def _func(tree, name, rel):
+    for n in tree.body:
+        if isinstance(n, (ast.FunctionDef, ast.AsyncFunctionDef)) and n.name == name:
+            return n
+    raise TranslateError(f"{rel}: function {name} not found")
+
+
+def _calls_named(node, name):
+    return [n for n in ast.walk(node) if isinstance(n, ast.Call) and isinstance(n.func, ast.Name) and n.func.id == name]
+
+
+def pool_timeout_order():
+    """(-> inside, closes): is `_handle_timeout(...)` called lexically INSIDE the `with ThreadPoolExecutor(...)` block of
+    `_multiprocessing_timeout` (i.e. before the implicit join of the worker when the block is left)?  and does
+    `_handle_timeout` call `transport.close()` before it raises?"""
+    tree = _parse(DECO)
+    fn = _func(tree, "_multiprocessing_timeout", DECO)
+    withs = [n for n in ast.walk(fn) if isinstance(n, ast.With) and any(
+        isinstance(it.context_expr, ast.Call) and getattr(it.context_expr.func, "id", getattr(it.context_expr.func, "attr", "")) == "ThreadPoolExecutor"
+        for it in n.items)]
+    if len(withs) != 1:
+        raise TranslateError(f"{DECO}: _multiprocessing_timeout: expected one `with ThreadPoolExecutor(...)` block, found {len(withs)}")
+    w = withs[0]
+    allc = _calls_named(fn, "_handle_timeout")
+    if not allc:
+        raise TranslateError(f"{DECO}: _multiprocessing_timeout does not call _handle_timeout")
+    inside_ids = {id(c) for b in w.body for c in _calls_named(b, "_handle_timeout")}
+    inside = all(id(c) in inside_ids for c in allc)
+    if not any(isinstance(n, ast.Call) and isinstance(n.func, ast.Attribute) and n.func.attr == "submit" for b in w.body for n in ast.walk(b)):
+        raise TranslateError(f"{DECO}: _multiprocessing_timeout: no pool.submit inside the block")
+    ht = _func(tree, "_handle_timeout", DECO)
+    closes = [n.lineno for n in ast.walk(ht) if isinstance(n, ast.Call) and isinstance(n.func, ast.Attribute) and n.func.attr == "close"
+              and isinstance(n.func.value, ast.Name) and n.func.value.id == "transport"]
+    raises = [n.lineno for n in ast.walk(ht) if isinstance(n, ast.Raise)]
+    if not raises:
+        raise TranslateError(f"{DECO}: _handle_timeout does not raise")
+    return inside, bool(closes) and min(closes) < max(raises)
+
+
 def analyse():
     """-> dict(rows=[(file, method, call, line, inside)], operations=[(file, method)], lock_ctx=[(file, ok)],
                lock_types=[(file, ctor, guarded)], default=bool, unlocked_public=[(file, method)])"""
@@ -211,7 +253,8 @@ def analyse():
         types.append((rel, ctor, guarded))
     if not rows:
         raise TranslateError("no transport-reaching call found in any channel operation")
-    return dict(rows=rows, operations=ops, lock_ctx=ctx, lock_types=types, default=_default_flag())
+    inside, closes = pool_timeout_order()
+    return dict(rows=rows, operations=ops, lock_ctx=ctx, lock_types=types, default=_default_flag(), pool_inside=inside, pool_closes=closes)
 
 
 def _s(x):
@@ -224,7 +267,7 @@ def _b(x):
 
 def generate():
     a = analyse()
-    body = HEADER.format(src="the AST of scrapli/channel/{sync,async,base}_channel.py (tools/gen/c19.py)")
+    body = HEADER.format(src="the AST of scrapli/channel/{sync,async,base}_channel.py and scrapli/decorators.py (tools/gen/c19.py)")
     body += "namespace Scrapli.Gen.LockCoverage\n\n"
     body += ("/-- one call that reaches the transport, made by a public channel operation;\n"
              "    `inside` = lexically inside `with / async with self._channel_lock():` (or made by a private helper all of\n"
@@ -244,6 +287,11 @@ def generate():
     body += "/-- constructor assigned to `self.channel_lock`, and whether the assignment is guarded by `_base_channel_args.channel_lock` -/\n"
     body += "def lockTypes : List (String × String × Bool) := [" + ", ".join(f"({_s(f)}, {_s(c)}, {_b(g)})" for f, c, g in a["lock_types"]) + "]\n\n"
     body += f"/-- BaseChannelArgs.channel_lock default -/\ndef channelLockDefault : Bool := {_b(a['default'])}\n\n"
+    body += ("/-- scrapli/decorators.py `_multiprocessing_timeout`: every `_handle_timeout(...)` call is lexically inside the\n"
+             "    `with ThreadPoolExecutor(...)` block, i.e. the transport is closed BEFORE the worker is joined -/\n"
+             f"def handleTimeoutInsidePoolBlock : Bool := {_b(a['pool_inside'])}\n\n"
+             "/-- `_handle_timeout` calls `transport.close()` before it raises ScrapliTimeout -/\n"
+             f"def handleTimeoutClosesBeforeRaise : Bool := {_b(a['pool_closes'])}\n\n")
     body += "end Scrapli.Gen.LockCoverage\n"
     return [("ScrapliModel/Gen/LockCoverage.lean", body)]
 
